@@ -1957,7 +1957,7 @@ class ShortcutNode(ListNode):
             num_repeats = ""
         else:
             num_repeats = self._num_node
-        return f"{first_val}{num_repeats.format()}{r}"
+        return ListNode._join_entries(first_val, f"{num_repeats.format()}{r}")
 
     def _format_multiply(self, carried=None):
         nodes = list(self.nodes)
@@ -1986,7 +1986,7 @@ class ShortcutNode(ListNode):
         if not self._is_close(written, product):
             return None
         self._written_tail = written
-        return f"{first_val_str}{num_str}{m}"
+        return ListNode._join_entries(first_val_str, f"{num_str}{m}")
 
     def _is_interpolation(self, begin, nodes):
         """
@@ -2048,7 +2048,9 @@ class ShortcutNode(ListNode):
             padding = self._original[2]
         else:
             padding = PaddingNode(" ")
-        return f"{start}{num_interp.format()}{interp}{padding.format()}{end.format()}"
+        return ListNode._join_entries(
+            start, f"{num_interp.format()}{interp}{padding.format()}{end.format()}"
+        )
 
 
 class ClassifierNode(SyntaxNodeBase):
